@@ -89,6 +89,7 @@ def unmasked_attrs(baselist: Sequence[model.Class]) -> Sequence[model.Documentab
         o.name
         for b in baselist[1:]
         for o in b.contents.values()
+        if not model.is_class_private(o.name)
         }
     return [o for o in baselist[0].contents.values()
             if o.isVisible and o.name not in maybe_masking]
